@@ -24,7 +24,7 @@ META = dict(
          "every operation it logs [in-flight, score, latency estimate] of every connection. TLC (spec/P2CTrace.tla, all "
          "traces concatenated, -workers 1) checks that every logged step is a step of spec/P2C.tla: the pick is a ready "
          "connection, in-flight = picks - completions, the score stays in [0,1000], moves towards its target and at "
-         "least as fast as the decay bound, a backend whose calls all fail (>= 1 ms apart) is at or below 500 after at most 20000 completions (streak traces on n = 1 and n = 3), the estimate stays within the observed latencies, and with two connections "
+         "least as fast as the decay bound, a completion that read its time before the connection's previous completion moves nothing (reorder traces: the first completion is parked inside its clock read while a later one finishes), a backend whose calls all fail (>= 1 ms apart) is at or below 500 after at most 20000 completions (streak traces on n = 1 and n = 3), the estimate stays within the observed latencies, and with two connections "
          "none is left unpicked beyond the force-pick period under sustained picks. P2C.tla itself is model-checked "
          "(invariants, UnhealthyBound: 8 failing completions >= 1 s apart make a backend unhealthy, Recover, NoStarve2). "
          "A concurrent variant (8 goroutines) logs the quiescent end state, judged by the same invariants; long 1 kHz "
@@ -47,7 +47,7 @@ FINISH = dict(rule="every recorded trace (seeded random Pick/Done sequences for 
                    "connections are flagged only beyond DESIGN.md section 5 margins")
 
 MCK = dict(Conns="1..2", MCReady="1..2", MCCodes='{"nil","Unavailable"}', MCLats="{1000,50000}", MCSteps="{0,600,1000}",
-           RunLen=8, FailB=20000)
+           RunLen=8, FailB=20000, MCSplit=False)
 FAILB = 20000             # unacceptable completions (>= 1 ms apart, none acceptable between) after which score <= 500
 INVS = ["TypeOK", "InflEq", "SuccRange", "LagRange", "OnlyReady", "UnhealthyBound", "Recover", "FailBound"]
 
@@ -75,6 +75,11 @@ def mc(ctx):
                  name="P2C-reach-fail", workers=1, timeout=600, allow_violation=True, heap="2g")
     if r2.violated != "NotReached":
         raise core.Infra("vacuous model: FailB failing completions are not reachable within the bound")
+    # (a'') completions split into begin / end, ends applied out of time order
+    K5 = dict(MCK, Conns="1..1", MCReady="1..1", MCSteps="{0,1000}", MCLats="{1000,50000}", MCSplit=True)
+    cfg = core.render_cfg(spec="Spec", constants=K5, invariants=INVS, constraints=["Bound"], view="core")
+    ctx.tlc("P2C", cfg, constants=K5, defs=dict(Bound="picks[1] <= 3 /\\ now <= 3000"), name="P2C-mc5", workers=4,
+            timeout=900, heap="2g")
     # (b) two connections: force-pick rule, interleavings, close and far completions
     K = dict(MCK, MCLats="{1000}")
     cfg = core.render_cfg(spec="Spec", constants=K, invariants=INVS, properties=["NoStarve2"], constraints=["Bound"], view="core")
@@ -190,6 +195,11 @@ def run(ctx):
     sp = os.path.join(ctx.build, "streak.ndjson")
     drive(ctx, binp, "streak", sp, "streak", **st)
     validate(ctx, sp, "trace-streak", "streak", st)
+    # two completions of one connection applied out of the order of the times they read
+    ro = dict(VERIF_C14_TRACES=(150 if ctx.quick else 1500))
+    rp = os.path.join(ctx.build, "reorder.ndjson")
+    drive(ctx, binp, "reorder", rp, "reorder", **ro)
+    validate(ctx, rp, "trace-reorder", "reorder", ro)
     if not ctx.quick:
         rb = ctx.go_build(PKG, OVERLAY, name="c14drv-race", race=True)
         for gmp in (2, 8):
